@@ -11,6 +11,8 @@ from vlib import log
 PROPS = ["C10"]
 
 ASSUME = [
+    "free-running runs (registry-free): interleavings inside a hooked step are reached by chance on real threads, not enumerated; "
+    "only lines logged at safe positions are validated (intent before the call, result after it, the holder's own lookup, the final table)",
     "sequential consistency at the granularity of the hooked steps; each DashMap operation (entry insert, remove, get) is atomic",
     "one name is explored (names do not interact: the table is keyed by name, one shard lock per operation)",
     "a spawn attempt is ActorCell::new on a detached cell (what ActorRuntime::new does first); the exit of a successful attempt is the "
